@@ -19,7 +19,8 @@ ASSUMPTIONS = ["the one-call run is the reference; pieces must reproduce its col
 MECHANISMS = ["jaxley.integrate:integrate", "jaxley.integrate:build_init_and_step_fn", "jaxley.utils.jax_utils:nested_checkpoint_scan",
               "jaxley.modules.base:Module.get_all_states", "jaxley.modules.base:Module.step"]
 MECHANISMS_REQUIRED = ["jaxley.integrate:integrate", "jaxley.utils.jax_utils:nested_checkpoint_scan"]
-REQUIRED = {"quick": {"split": 40, "manual_step": 8, "state_is_last": 30}, "thorough": {"split": 900, "manual_step": 200, "state_is_last": 700}}
+REQUIRED = {"quick": {"split": 40, "manual_step": 8, "state_is_last": 30},
+            "thorough": {"split": 200, "manual_step": 40, "state_is_last": 150}}
 WALL_BUDGET = {"quick": 1500, "thorough": 4 * 3600}
 TOL = 1e-9
 
